@@ -140,7 +140,31 @@ pub fn judge(b: &[u8]) -> Verdict {
     crate::arena::deliver_in_place(b, judge_here)
 }
 
+/// Bystander traffic on the receiving thread before some deliveries (chosen by the delivered
+/// bytes themselves, so a replay makes the same choice): a compound whose second member is turned
+/// down on read-out, one with a version-1 member, and a healthy one, each walked to its end.
+fn beside(b: &[u8]) {
+    let h = crate::prng::fnv1a(crate::prng::FNV_INIT ^ b.len() as u64, &b[..b.len().min(24)]);
+    if h & 7 != 0 {
+        return;
+    }
+    const REJECTED_MEMBER: &[u8] = &[0x80, 203, 0, 0, 0x81, 201, 0, 1, 0, 0, 0, 9, 0x80, 203, 0, 0];
+    const VERSION1_MEMBER: &[u8] = &[0x80, 203, 0, 0, 0x40, 210, 0, 0, 0x80, 203, 0, 0];
+    const HEALTHY: &[u8] = &[0x81, 203, 0, 1, 0, 0, 0, 7, 0x80, 210, 0, 1, 1, 2, 3, 4];
+    let _ = guarded(|| {
+        for d in [REJECTED_MEMBER, VERSION1_MEMBER, HEALTHY] {
+            if (h >> 3) & 1 == 1 && d.len() == 12 {
+                continue;
+            }
+            if let Ok(c) = Compound::parse(d) {
+                let _ = c.take(8).count();
+            }
+        }
+    });
+}
+
 fn judge_here(b: &[u8]) -> Verdict {
+    beside(b);
     let mut v = Verdict { codes: [0; 9], violation: None, panics: 0 };
     macro_rules! typed {
         ($idx:expr, $ty:ty) => {{
